@@ -441,6 +441,62 @@ func init() {
 			}
 			c.Outcome("rendered")
 		}})
+	register(&Part{Prop: "C06", Name: "string-literal-bodies", Quick: 4, Thor: 8, Replay: replay,
+		Desc: "every quoted string literal body of <= 5 (thorough 6) pieces over {{{, }}, {, }, x, 1/0, space, a}: the hand-written scanner for {{...}} substitutions meets closing markers before opening ones, unbalanced and nested braces, empty and failing expressions; each body at top level, inside try/except (result assigned in both branches) and in a sink body next to a second sink that must still run",
+		Rule: "odometer over pieces x 3 contexts; every case non-trivial (no panic is the oracle; a worker panic kills the worker process and is attributed through the side file)",
+		Run: func(c *Ctx) {
+			pieces := []string{"{{", "}}", "{", "}", "x", "1/0", " ", "a"}
+			max := 5
+			if c.Thorough() {
+				max = 6
+			}
+			for n := 1; n <= max; n++ {
+				idx := make([]int, n)
+				for {
+					if c.Stopped() {
+						return
+					}
+					if c.Mine() {
+						var sb strings.Builder
+						for _, i := range idx {
+							sb.WriteString(pieces[i])
+						}
+						body := sb.String()
+						for ctx, src := range []string{
+							fmt.Sprintf("x := 1\nr := \"%s\"", body),
+							fmt.Sprintf("x := 1\ntry {\n  r := \"%s\"\n} except e {\n  r := e.detail\n}", body),
+							fmt.Sprintf("sink s1\n kindmatch [\"k\"],\n {\n  x := event.state.v\n  r := \"%s\"\n }\nsink s2\n kindmatch [\"k\"],\n priority 1,\n {\n  log(\"s2 ran\")\n }\nres := addEventAndWait(\"e\", \"k\", {\"v\": 1})\nres2 := addEventAndWait(\"e2\", \"k\", {\"v\": 2})", body),
+						} {
+							c.Risky(src)
+							out := evalECAL(src, evalOpts{budget: 20000})
+							c.Nontrivial()
+							if out.panicKey != "" {
+								c.Viol("string literal: "+out.panicKey, fmt.Sprintf("%q panics during %s: %s", src, out.stage, out.panicMsg), src)
+								continue
+							}
+							if ctx > 0 && out.err != nil && out.stage == "eval" {
+								c.Viol("string literal: failing substitution is not contained", fmt.Sprintf("%q: the error of the substitution reaches the caller: %v", src, out.err), src)
+								continue
+							}
+							c.Outcome([]string{"top-level-ok", "try-contained", "sink-contained"}[ctx])
+						}
+					}
+					k := n - 1
+					for k >= 0 {
+						idx[k]++
+						if idx[k] < len(pieces) {
+							break
+						}
+						idx[k] = 0
+						k--
+					}
+					if k < 0 {
+						break
+					}
+				}
+			}
+			c.Sample(`r := "}} {{x}}"`)
+		}})
 	register(&Part{Prop: "C06", Name: "accepted-token-sequences", Quick: 16, Thor: 32, Replay: replay,
 		Desc: "every token sequence of length <= 3 over the full lexer alphabet and of length 4 (thorough 5) over the 34-token subset that the parser accepts is validated and evaluated under a 2000-visit step budget",
 		Rule: "odometer over token sequences (the C07 generator); non-trivial = accepted by the parser",
